@@ -671,9 +671,11 @@ func (c *fnCtx) forStmt(ind int, s *ast.ForStmt) {
 	if asg[obj] {
 		bad("the body assigns to the loop variable")
 	}
-	for v := range freeVars(c.info, cond.Y) {
-		if asg[v] {
-			bad("the body assigns to " + v.Name() + ", which the bound mentions")
+	if c.info.Types[cond.Y].Value == nil { // a constant bound (e.g. len of an array) cannot move
+		for v := range freeVars(c.info, cond.Y) {
+			if asg[v] {
+				bad("the body assigns to " + v.Name() + ", which the bound mentions")
+			}
 		}
 	}
 	before := c.nparts
